@@ -30,6 +30,7 @@ ASSUMPTIONS = [
 REQUIRED_CLASSES = {
     "random": ["entangling", "measuring", "random_outcome", "det_outcome_1", "op_after_mcr_on_register",
                "wrapper_len>=2", "emitter+photon", "initial_state", "creg_reused"],
+    "large": ["entangling", "measuring", "random_outcome", "register_index>=10", "emitter+photon"],
 }
 
 SETTINGS = [0, 1, "probabilistic"]
@@ -203,6 +204,125 @@ def check_random(case):
     return Info(nontrivial=("entangling" in cl and "measuring" in cl), classes=cl)
 
 
+class PauliRun:
+    """the same textbook execution on the Pauli-algebra simulator (any number of qubits)"""
+
+    def __init__(self, desc):
+        self.desc = desc
+        self.n = desc["ne"] + desc["np"]
+        self.ps = rp.PauliSim(self.n)
+        self.creg = [0] * desc["nc"]
+        self.n_random = 0
+        self.n_det1 = 0
+
+    def q(self, t, r):
+        return gc.qindex(self.desc, t, r)
+
+    def step(self, d, setting, outcome=None):
+        g = d[0]
+        if g in gc.ONE:
+            if g != "I":
+                self.ps.gate1(g, self.q(d[1], d[2]))
+            return None, 1.0
+        if g == "CNOT":
+            self.ps.cnot(self.q(d[1], d[2]), self.q(d[3], d[4]))
+            return None, 1.0
+        if g == "CZ":
+            self.ps.cz(self.q(d[1], d[2]), self.q(d[3], d[4]))
+            return None, 1.0
+        mq = self.q(d[1], d[2])
+        want = int(outcome) if setting == "follow" else int(setting)
+        o, rnd = self.ps.measure_z(mq, forced=want)
+        p = 0.5 if rnd else (1.0 if (setting != "follow" or o == want) else 0.0)
+        if rnd:
+            self.n_random += 1
+        elif o == 1:
+            self.n_det1 += 1
+        if g == "MZ":
+            self.creg[d[3]] = o
+            return o, p
+        tq = self.q(d[3], d[4])
+        if o == 1:
+            self.ps.gate1("Z" if g == "CCZ" else "X", tq)
+        if g == "MCR" and o == 1:
+            self.ps.gate1("X", mq)
+        self.creg[d[5]] = o
+        return o, p
+
+
+def check_large(case, sub="large"):
+    """stabilizer backend on 9..24 registers (two-digit register indices) against the Pauli-algebra reference"""
+    import graphiq.backends.compiler_base as cb
+
+    desc = case["circ"]
+    n = desc["ne"] + desc["np"]
+    cl = gc.classes_of(desc)
+    if max(desc["ne"], desc["np"]) > 10:
+        cl.append("register_index>=10")
+    icls = "measuring" if any(gc.measuring(d) for d in desc["ops"]) else "unitary"
+    n_random = 0
+    for setting in SETTINGS:
+        site = "stab:%s" % (setting if setting != "probabilistic" else "prob")
+        circ = gc.build(desc)
+        comp = _compilers()["stab"]()
+        comp.measurement_determinism = setting
+        events = []
+        np.random.seed(case["seed"] % (2**32))
+        cb.verif_callback = lambda kind, op, record: events.append((kind, op, record))
+        try:
+            state = guarded(sub, icls, comp.compile, circ)
+        finally:
+            cb.verif_callback = None
+        if not events or events[-1][0] != "end":
+            raise Violation(sub, "hook-incomplete", site, icls, "compile returned without the final report")
+        reported, records = [], []
+        for i, (kind, op, rec) in enumerate(events[:-1]):
+            d = gc.name_of(op)
+            if d is None:
+                continue
+            reported.append(d)
+            records.append(np.array(events[i + 1][2]).astype(float))
+        bad = check_order(desc, reported)
+        if bad:
+            raise Violation(sub, "order", site, icls, bad)
+        ref = PauliRun(desc)
+        for d, rec in zip(reported, records):
+            if gc.measuring(d):
+                creg = gc.cregs(d)[0]
+                if setting == "probabilistic":
+                    o = rec[creg]
+                    if o not in (0, 1):
+                        raise Violation(sub, "record-not-binary", site, icls, "record %s after %s" % (rec.tolist(), d))
+                    o, p = ref.step(d, "follow", int(o))
+                    if p == 0.0:
+                        raise Violation(sub, "impossible-outcome", site, icls, "outcome recorded for %s is impossible" % (d,))
+                else:
+                    ref.step(d, setting)
+                if list(rec) != [float(x) for x in ref.creg]:
+                    raise Violation(sub, "classical-record", site, icls, "after %s: record %s, reference %s" % (d, rec.tolist(), ref.creg))
+            else:
+                ref.step(d, setting)
+        if state.n_qubits != n:
+            raise Violation(sub, "n_qubits", site, icls, "%s != %s" % (state.n_qubits, n))
+        tab = state.rep_data.tableau
+        probs = rp.clifford_tableau_problems(tab)
+        if probs:
+            raise Violation(sub, "invalid-tableau", site, icls, "; ".join(probs))
+        if rp.group_key(rp.stabilizer_paulis(tab), n) != rp.group_key(ref.ps.stab, n):
+            raise Violation(sub, "state-mismatch", site, icls, "the tableau does not denote the reference state (%d qubits)" % n)
+        n_random += ref.n_random
+    if n_random:
+        cl.append("random_outcome")
+    return Info(nontrivial=("entangling" in cl and "measuring" in cl), classes=cl)
+
+
+def strat_large(tier):
+    return st.fixed_dictionaries({
+        "circ": gc.st_circuit(max_q=24, max_len=60 if tier == "quick" else 120, max_c=4, min_q=9),
+        "seed": st.integers(0, 2**31 - 1),
+    })
+
+
 def check_small(case):
     return check_random({"circ": case, "seed": 7, "init": None})
 
@@ -257,6 +377,8 @@ def enum_small(tier, seed):
 SUBS = [
     Sub("random", check_random, strategy=strat_random, n={"quick": 150, "thorough": 2500},
         doc="random circuits x 2 backends x 3 settings x optional initial state vs dense reference"),
+    Sub("large", check_large, strategy=strat_large, n={"quick": 40, "thorough": 1500},
+        doc="stabilizer backend on 9..24 registers (register indices with two digits) x 3 settings vs the Pauli-algebra reference"),
     Sub("small", check_small, enum=enum_small,
         doc="every program of length <=2 (quick; +1500 sampled of length 3) / <=3 (thorough) over the 30-letter alphabet on "
             "1 emitter + 1 photon + 1 classical register, all 6 configurations"),
